@@ -24,6 +24,7 @@ fn main() {
         "layout" => probe_cmd::layout(&args[2..]),
         "layout-types" => println!("{}", probe_cmd::LAYOUT_TYPES.join(" ")),
         "leak" => probe_cmd::leak(),
+        "nucleo-cols" => probe_cmd::nucleo_cols(),
         "scratch-probe" => scratch_cmd::run(&args[2..]),
         _ => {
             eprintln!("usage: hn boxcar FILE | layout TYPE [CASE] | leak | ...");
